@@ -5,6 +5,7 @@
   `Generated.openTakesLock`.
 -/
 import Nervus.Proofs.Handles
+import Nervus.Proofs.OpenRace
 namespace Nervus.Props.C10
 open Nervus Nervus.Handles
 
@@ -13,6 +14,12 @@ open Nervus Nervus.Handles
     at most one handle can write a given database. -/
 def C10_full : Prop :=
   ∀ (os : OsTryLock), OsSound os → ∀ s, Reach Generated.openTakesLock os s → ∀ path, (writers s path).length ≤ 1
+
+/-- **C10 for racing creators, at full strength**: whatever the interleaving of the file-system steps of
+    any number of concurrent `open`s of a database that does not exist yet, at most one of them ends up
+    holding it open. -/
+def C10_race_full : Prop :=
+  ∀ s, OpenRace.Reach Generated.openReplacesPathInode s → ∀ i j, OpenRace.owns s i → OpenRace.owns s j → i = j
 
 /-- the source takes the lock (regenerated table entry) -/
 theorem open_takes_lock : Generated.openTakesLock = true := by decide
@@ -40,6 +47,48 @@ theorem C10 : C10_full := by
   rw [open_takes_lock] at h
   exact one_writer_with_lock os hos s h path
 
+/-- the source takes the lock on the ONE file it opened (with create) at the path BEFORE it initialises
+    anything, and no step replaces the inode the path names (regenerated step order of `Pager::open`) -/
+theorem lock_before_initialise_in_source :
+    Generated.openSteps = ["checkPath", "openCreate", "lock", "initInPlace"] ∧
+    Generated.openLockBeforeInit = true ∧ Generated.openReplacesPathInode = false := by decide
+
+/-- **Racing creators cannot both succeed** when every opener locks the single inode that
+    `open(path, O_CREAT)` names before initialising it — all interleavings, any number of openers. -/
+theorem racing_creators_one_winner (s : OpenRace.State) (h : OpenRace.Reach false s) (i j : Nat)
+    (hi : OpenRace.owns s i) (hj : OpenRace.owns s j) : i = j := by
+  obtain ⟨n, hn⟩ := hi
+  obtain ⟨m, hm⟩ := hj
+  have inv := OpenRace.reach_inv h
+  have h1 := inv.fd i n (Or.inr hn)
+  have h2 := inv.fd j m (Or.inr hm)
+  rw [h1] at h2; cases h2
+  have a := inv.held i n hn
+  have b := inv.held j n hm
+  rw [a] at b; cases b; rfl
+
+/-- **C10 (racing creators)** for the code as it is. -/
+theorem C10_race : C10_race_full := by
+  intro s h i j hi hj
+  rw [lock_before_initialise_in_source.2.2] at h
+  exact racing_creators_one_winner s h i j hi hj
+
+private theorem okR : (OpenRace.runTrace true OpenRace.init
+    [.check 0, .check 1, .create 0, .openp 0, .lock 0, .create 1, .openp 1, .lock 1]).isSome = true := by decide
+def stRace : OpenRace.State := (OpenRace.runTrace true OpenRace.init
+    [.check 0, .check 1, .create 0, .openp 0, .lock 0, .create 1, .openp 1, .lock 1]).get okR
+
+/-- **Counterexample: initialise-by-rename before the lock** — both openers see the path missing;
+    opener 0 renames its file in, opens and locks inode 0; opener 1 renames ITS file over the path,
+    opens and locks inode 1.  Two handles own "the" database. -/
+theorem C10_counterexample_rename_race :
+    OpenRace.Reach true stRace ∧ stRace.ops 0 = .locked 0 ∧ stRace.ops 1 = .locked 1 ∧
+    ¬ (∀ i j, OpenRace.owns stRace i → OpenRace.owns stRace j → i = j) := by
+  refine ⟨OpenRace.reach_of_runTrace _ .init (Option.some_get okR).symm, by decide, by decide, ?_⟩
+  intro h
+  have := h 0 1 ⟨0, by decide⟩ ⟨1, by decide⟩
+  cases this
+
 /-- **Counterexample without the lock** (the pinned tree before the `fix:` commit): two `Db::open`
     of one path, from two processes, both succeed — two writers. -/
 theorem C10_counterexample :
@@ -58,5 +107,8 @@ example :
     (step true osFlock (step true osFlock s1 (.crash 1)).1 (.open 2 7)).2 = .ok 1 ∧
     (step true osFlock s1 (.open 2 8)).2 = .ok 1 := by decide
 example : OsSound osFlock := osFlock_sound
+/-- racing creators under the source's protocol: one wins, the other is refused -/
+example : (OpenRace.runTrace false OpenRace.init [.openp 0, .openp 1, .lock 1, .lock 0]).map
+    (fun s => (s.ops 0, s.ops 1)) = some (.refused, .locked 0) := by decide
 
 end Nervus.Props.C10
